@@ -39,14 +39,16 @@ func (t *CSVFormatter) Write(values []octosql.Value) error {
 	var builder strings.Builder
 	row := make([]string, len(values))
 	for i := range values {
-		FormatCSVValue(&builder, values[i])
+		FormatCSVValue(&builder, t.fields[i].Type, values[i])
 		row[i] = builder.String()
 		builder.Reset()
 	}
 	return t.writer.Write(row)
 }
 
-func FormatCSVValue(builder *strings.Builder, value octosql.Value) {
+// FormatCSVValue writes the text of a CSV cell holding value, which is of type t.
+// Lists, structs and tuples have no CSV representation of their own and are written as JSON text.
+func FormatCSVValue(builder *strings.Builder, t octosql.Type, value octosql.Value) {
 	switch value.TypeID {
 	case octosql.TypeIDNull:
 	case octosql.TypeIDInt:
@@ -61,6 +63,8 @@ func FormatCSVValue(builder *strings.Builder, value octosql.Value) {
 		builder.WriteString(value.Time.Format(time.RFC3339))
 	case octosql.TypeIDDuration:
 		builder.WriteString(fmt.Sprint(value.Duration))
+	case octosql.TypeIDList, octosql.TypeIDStruct, octosql.TypeIDTuple:
+		builder.Write(ValueToJson(nil, t, value))
 	default:
 		panic("invalid value type to print in CSV: " + value.TypeID.String())
 	}
